@@ -135,12 +135,18 @@ func checkC16(c *core.Check) {
 			}
 		}
 	}
+	nComp := 8
+	if thorough {
+		nComp = 60
+	}
+	groups = append(groups, randKitchenGroups(rng, nComp, "rk", specs, newCase)...)
 	run, ok := runPipeline(c, specs, groups)
 	if !ok {
 		return
 	}
 	c.Cov["exhaustive"] = false
-	c.Cov["rule"] = "TLC (MC_Pipeline) explores every interleaving-free step sequence of one request through the model of ServeHTTP for middleware stacks {0,MaxMw} x targets {operation, not found, spec file, CORS} x security outcomes and checks MwAround/SingleWrite; the real generated API is then served the kitchen-sink and TLC-enumerated router universes under API configurations mw 0..4 x NotFound/Spec/CORS handlers and TLC (Trace_Pipeline) validates every MwEnter/MwLeave/Auth/Handler/NotFound/Cors/Spec/Done event; non-trivial = a handler, CORS or spec dispatch or a 401"
+	c.Cov["random_compositions"] = nComp
+	c.Cov["rule"] = "TLC (MC_Pipeline) explores every interleaving-free step sequence of one request through the model of ServeHTTP for middleware stacks {0,MaxMw} x targets {operation, not found, spec file, CORS} x security outcomes and checks MwAround/SingleWrite; the real generated API is then served the kitchen-sink and TLC-enumerated router universes under API configurations mw 0..4 x NotFound/Spec/CORS handlers, plus seeded random compositions of all pipeline features at once (base form x CORS x global / per-operation security over three schemes x path items with 1-4 operations x header parameters x 3 API configurations), and TLC (Trace_Pipeline) validates every MwEnter/MwLeave/Auth/Handler/NotFound/Cors/Spec/Done event; non-trivial = a handler, CORS or spec dispatch or a 401"
 	c.Cov["bounds"] = map[string]any{"api_configurations": len(groups), "router_sets": nSets, "request_depth": depth}
 	c.Sample(map[string]any{"api": groups[len(groups)-1].API, "request": groups[len(groups)-1].Cases[3]})
 	judgePipeline(c, run, specs, "middlewares")
